@@ -595,11 +595,27 @@ class Ctx:
         """SV that is a constant interned ref -> the python-level object, else the SV itself"""
         if isinstance(sv, SV):
             s = Z.S(sv.t)
+            if z3.is_app(s) and s.decl().kind() == z3.Z3_OP_SELECT:
+                s = self._resolve_select(s)
             if z3.is_app(s) and s.decl().name() == "refv" and z3.is_int_value(s.arg(0)):
                 n = s.arg(0).as_long()
                 if n in self.E.interned:
                     return self.E.interned[n]
         return sv
+
+    def _resolve_select(self, s):
+        """Select over a chain of Stores whose indices the path condition separates: read through the stores that provably do not alias"""
+        arr, idx = s.arg(0), s.arg(1)
+        for _ in range(16):
+            if not (z3.is_app(arr) and arr.decl().kind() == z3.Z3_OP_STORE):
+                return s
+            a, i, v = arr.arg(0), arr.arg(1), arr.arg(2)
+            if z3.eq(i, idx) or not self.feasible(i != idx):
+                return Z.S(v)
+            if self.feasible(i == idx):
+                return s
+            arr = a
+        return s
 
     def truth(self, v):
         """Python truthiness of an executor value as z3 Bool / python bool"""
